@@ -67,7 +67,22 @@ namespace riddle
             case INT_ID:
             case REAL_ID:
             case TP_ID:
-            case STRING_ID:
+            case STRING_ID: // either a primitive type method or a local field..
+            {
+                size_t c_pos = pos;
+                tk = next();
+                if (match(ID_ID) && tk->sym == LPAREN_ID)
+                {
+                    backtrack(c_pos);
+                    ms.emplace_back(_method_declaration());
+                }
+                else
+                {
+                    backtrack(c_pos);
+                    stmnts.emplace_back(_statement());
+                }
+                break;
+            }
             case LBRACE_ID:
             case BANG_ID:
             case FACT_ID:
@@ -429,14 +444,36 @@ namespace riddle
         std::vector<const statement *> stmnts;
 
         if (!match(VOID_ID))
-        {
-            do
+            switch (tk->sym)
             {
-                if (!match(ID_ID))
-                    error("expected identifier..");
-                rt.emplace_back(*static_cast<id_token *>(tks[pos - 2]));
-            } while (match(DOT_ID));
-        }
+            case BOOL_ID:
+                rt.emplace_back(id_token(0, 0, 0, 0, BOOL_KEYWORD));
+                tk = next();
+                break;
+            case INT_ID:
+                rt.emplace_back(id_token(0, 0, 0, 0, INT_KEYWORD));
+                tk = next();
+                break;
+            case REAL_ID:
+                rt.emplace_back(id_token(0, 0, 0, 0, REAL_KEYWORD));
+                tk = next();
+                break;
+            case TP_ID:
+                rt.emplace_back(id_token(0, 0, 0, 0, TP_KEYWORD));
+                tk = next();
+                break;
+            case STRING_ID:
+                rt.emplace_back(id_token(0, 0, 0, 0, STRING_KEYWORD));
+                tk = next();
+                break;
+            default:
+                do
+                {
+                    if (!match(ID_ID))
+                        error("expected identifier..");
+                    rt.emplace_back(*static_cast<id_token *>(tks[pos - 2]));
+                } while (match(DOT_ID));
+            }
 
         if (!match(ID_ID))
             error("expected identifier..");
